@@ -17,7 +17,7 @@ VERUS_UNITS = {
     'U-ENC-V': dict(module='contracts.verus.yaml_encoding', min_verified=15, timeout=600,
                     native_search=dict(src='src/yaml/encoding.rs', file='encoder_search.rs'),
                     props=['C07', 'C02', 'C04', 'C05', 'C12', 'C01']),
-    'U-MP-X': dict(module='contracts.verus.msgpack_transcode', min_verified=24, timeout=600,
+    'U-MP-X': dict(module='contracts.verus.msgpack_transcode', min_verified=25, timeout=600,
                    native_search=dict(src='src/msgpack.rs', file='msgpack_search.rs'),
                    props=['C03', 'C18', 'C04', 'C02', 'C06']),
     'U-VAL-V': dict(module='contracts.verus.transcode_value', min_verified=3, timeout=600,
@@ -27,7 +27,7 @@ VERUS_UNITS = {
     'U-TML-V': dict(module='contracts.verus.toml_output', min_verified=9, timeout=600,
                     props=['C08', 'C12', 'C11', 'C10', 'C09']),
     'U-LIB-V': dict(module='contracts.verus.lib_translate', min_verified=9, timeout=600,
-                    props=['C09', 'C03', 'C12']),
+                    props=['C09', 'C03', 'C12', 'C15']),
     'U-MAIN-V': dict(module='contracts.verus.cli_main', min_verified=12, timeout=600,
                      props=['C14', 'C03', 'C15', 'C13', 'C16']),
     'U-CAP-V': dict(module='contracts.verus.input_capture', min_verified=18, timeout=600,
